@@ -377,8 +377,14 @@ func main() {
 			knownMatched = append(knownMatched, fp)
 			continue
 		}
-		// confirm in a fresh process
-		if code := doReplay(bin, prop, v.path, false); code != 1 {
+		// confirm in a fresh process (race reports depend on process history: second attempt re-executes the worker's earlier runs first)
+		code := doReplay(bin, prop, v.path, false)
+		if code != 1 && pc.race {
+			os.Setenv("VERIF_REPLAY_PREFIX", "1")
+			code = doReplay(bin, prop, v.path, false)
+			os.Unsetenv("VERIF_REPLAY_PREFIX")
+		}
+		if code != 1 {
 			fatal2("violation %s (seed index %d) did not reproduce from %s in a fresh process: determinism trouble in the harness, not a verdict\n%s", fp, v.r.Seed, v.path, v.r.Detail)
 		}
 		nviol++
